@@ -4,12 +4,21 @@ import (
 	"fmt"
 	"strings"
 
+	goerrors "github.com/ajitpratap0/GoSQLX/pkg/errors"
 	"github.com/ajitpratap0/GoSQLX/pkg/models"
 	"github.com/ajitpratap0/GoSQLX/pkg/sql/ast"
 )
 
 // parseMatchAgainst parses MySQL MATCH(...) AGAINST('text' [IN NATURAL LANGUAGE MODE | IN BOOLEAN MODE | WITH QUERY EXPANSION])
 func (p *Parser) parseMatchAgainst(matchFunc *ast.FunctionCall) (ast.Expression, error) {
+	// The search expression is parsed with parsePrimaryExpression, which can start another
+	// MATCH ... AGAINST: count the nesting against the recursion limit
+	p.depth++
+	defer func() { p.depth-- }()
+	if p.depth > MaxRecursionDepth {
+		return nil, goerrors.RecursionDepthLimitError(p.depth, MaxRecursionDepth, p.currentLocation(), "")
+	}
+
 	p.advance() // Consume AGAINST
 	if !p.isType(models.TokenTypeLParen) {
 		return nil, p.expectedError("(")
